@@ -361,6 +361,122 @@ func runC19(c *Ctx) {
 		}
 	}
 
+	// every reload request reads the file: reload() cannot return without having gone through startServer
+	if rl := c.fn(glyphCmd, "hotReloadManager.reload"); rl != nil {
+		q := &pathQuery{fn: rl, target: isReturn, stop: func(x ssa.Instruction) bool {
+			call, ok := x.(ssa.CallInstruction)
+			return ok && strings.HasSuffix(callName(call), "hotReloadManager.startServer")
+		}}
+		hit, path := q.fromEntry()
+		c.ob("C19-R10", fnKey(rl)+"#every-reload-request-loads-the-file", rl.Pos(), hit == nil, "reload() can return without calling startServer (an 'already reloading' guard, a rate limit): the change event that asked for this reload may belong to a save made after the running reload read the file - nothing re-arms, so the last valid edit never takes effect", c.blockPath(path)...)
+	}
+
+	// ---- R12 a candidate version is built on objects of its own
+	c.rule("C19-R12", "ESC/fresh: every *interpreter.Interpreter into which cmd/glyph loads a module (LoadModule / LoadModuleWithPath) while building a version is created for that build - it is the result of a constructor call in the function that loads, or a parameter whose every caller passes such a result - never one kept in a field or package variable across reloads: loading overwrites functions and type definitions in place, so a candidate that is then rejected (missing static directory, duplicate ws pattern, failing import) would already have rewritten the version that keeps serving")
+	{
+		var fresh func(v ssa.Value, fn *ssa.Function, d int) (bool, string)
+		fresh = func(v ssa.Value, fn *ssa.Function, d int) (bool, string) {
+			if d > 4 {
+				return false, "origin not resolved"
+			}
+			switch x := v.(type) {
+			case *ssa.Call:
+				if sf := staticFn(x); sf != nil && sf.Signature.Results().Len() >= 1 && typeIs(derefType(sf.Signature.Results().At(0).Type()), interpPath, "Interpreter") {
+					return true, ""
+				}
+				return false, "result of " + short(callName(x))
+			case *ssa.Extract:
+				return fresh(x.Tuple, fn, d+1)
+			case *ssa.Phi:
+				for _, e := range x.Edges {
+					if ok, why := fresh(e, fn, d+1); !ok {
+						return false, why
+					}
+				}
+				return true, ""
+			case *ssa.Parameter:
+				idx := -1
+				for i, p := range fn.Params {
+					if p == x {
+						idx = i
+					}
+				}
+				nCallers := 0
+				for _, caller := range c.srcFuncs(glyphCmd) {
+					bad := ""
+					eachCall(caller, func(call ssa.CallInstruction) {
+						if staticFn(call) != fn || idx < 0 || idx >= len(call.Common().Args) {
+							return
+						}
+						nCallers++
+						if ok, why := fresh(call.Common().Args[idx], caller, d+1); !ok {
+							bad = "passed by " + fnKey(caller) + ": " + why
+						}
+					})
+					if bad != "" {
+						return false, bad
+					}
+				}
+				if nCallers == 0 {
+					return false, "parameter of a function without resolved callers"
+				}
+				return true, ""
+			case *ssa.UnOp:
+				if nt, f, ok := fieldOf(x.X); ok && nt != nil {
+					return false, "loaded from the field " + nt.Obj().Name() + "." + f
+				}
+				if g, ok := x.X.(*ssa.Global); ok {
+					return false, "loaded from the package variable " + g.Name()
+				}
+				if al, ok := x.X.(*ssa.Alloc); ok {
+					okAll := true
+					why := ""
+					for _, r := range refs(al) {
+						if st, ok := r.(*ssa.Store); ok && st.Addr == ssa.Value(al) {
+							if ok2, w := fresh(st.Val, fn, d+1); !ok2 {
+								okAll, why = false, w
+							}
+						}
+					}
+					return okAll, why
+				}
+			case *ssa.FreeVar:
+				// captured by a closure: judge the binding in the enclosing function
+				if fn.Parent() != nil {
+					for i, fv := range fn.FreeVars {
+						if fv == x {
+							for _, r := range *fn.Referrers() {
+								if mc, ok := r.(*ssa.MakeClosure); ok && i < len(mc.Bindings) {
+									return fresh(mc.Bindings[i], fn.Parent(), d+1)
+								}
+							}
+						}
+					}
+				}
+			}
+			return false, "origin not resolved"
+		}
+		n := 0
+		for _, fn := range c.srcFuncs(glyphCmd) {
+			k := 0
+			eachInstr(fn, func(_ *ssa.BasicBlock, _ int, ins ssa.Instruction) {
+				call, ok := ins.(*ssa.Call)
+				if !ok {
+					return
+				}
+				if nm := callName(call); nm != interpPath+".Interpreter.LoadModule" && nm != interpPath+".Interpreter.LoadModuleWithPath" {
+					return
+				}
+				n++
+				k++
+				ok2, why := fresh(call.Call.Args[0], fn, 0)
+				c.ob("C19-R12", fnKey(fn)+"#module-loaded-into-an-interpreter-of-its-own-"+itoa(k), call.Pos(), ok2, "the module is loaded into an interpreter that outlives this build ("+why+"): a reload that fails after this point is reported as failed, yet the functions and types of the rejected edit have already replaced those of the running version")
+			})
+		}
+		c.Sites["C19-R12#module-loads"] = n
+		c.ob("C19-R12", glyphCmd+"#module-loads-found", token.NoPos, n >= 1, "cmd/glyph loads no module into an interpreter: the rule's anchor is gone")
+	}
+
 	// ---- R11 an empty source is not a version
 	c.rule("C19-R11", "MPT: in prepareDevServer a branch whose condition depends on the parsed module's Items (their number, or a boolean predicate of cmd/glyph over the module) has an edge from which no success return is reachable: on a reload, the empty file an editor leaves between truncating and writing is a failed load, not a version that replaces the running one")
 	if pd := c.fn(glyphCmd, "hotReloadManager.prepareDevServer"); pd != nil {
@@ -627,4 +743,11 @@ func runC19(c *Ctx) {
 		// a changed hash is recorded and reported
 		_ = token.NoPos
 	}
+}
+
+func derefType(t types.Type) types.Type {
+	if p, ok := t.Underlying().(*types.Pointer); ok {
+		return p.Elem()
+	}
+	return t
 }
